@@ -73,7 +73,7 @@ def run(ctx, chk):
             ok = False
             got = "?"
             if len(r) == 1 and not r[0].guards:
-                fc = fresh_copy_then(r[0], nf.Norm(env=r[0].raw.env))
+                fc = fresh_copy_then(r[0], an.norm_of(r[0]))
                 if fc:
                     nb, eff = fc
                     got = "%s then %s" % (show(nb)[:60], [(e, [show(a) for a in ar]) for e, ar in eff])
